@@ -25,7 +25,7 @@ def _child(props, base_seed, n, hashseed):
     env = dict(os.environ)
     env["PYTHONHASHSEED"] = str(hashseed)
     code = (
-        "import sys,json; sys.path.insert(0,%r); sys.path.insert(0,%r); sys.setrecursionlimit(10000);"
+        "import sys,json; sys.path.insert(0,%r); sys.path.insert(0,%r);"
         "from sim import selftest; print(json.dumps(selftest.digests(%r,%d,%d)))" % (runner.VERIF, os.environ.get("VERIF_REPO", "/repo"), props, base_seed, n)
     )
     out = subprocess.run([sys.executable, "-B", "-c", code], env=env, capture_output=True, text=True, timeout=1800)
